@@ -141,11 +141,23 @@ def o_sign_verify(case):
     assert M.verdict(z, payload, Q_expected=Q), "reference does not verify its own signature"
     exp = M.b64(payload)
     sig = net.msg.sign(key, msg)
-    if sig != exp:
-        _bad("msg:signature!=ref", "%s: sign = %r, reference %r" % (where, sig, exp))
     low = net.msg.signature_for_message_hash(d, z, comp)
-    if low != exp:
-        _bad("msg:signature!=ref", "%s: signature_for_message_hash = %r, reference %r" % (where, low, exp))
+    # The property does not fix the nonce: any signature is acceptable that is the canonical base64 of a 65-byte compact
+    # signature whose header carries the key's compression flag and from which the reference recovers exactly the signer
+    # (a low-S-normalised or differently-nonced signature is as good as the RFC 6979 one, which is only labelled).
+    import base64 as _b64
+    for name, text in (("sign", sig), ("signature_for_message_hash", low)):
+        try:
+            raw = _b64.b64decode(text, validate=True)
+        except Exception:
+            raw = b""
+        if len(raw) != 65 or M.b64(raw) != text:
+            _bad("msg:signature-not-canonical-base64-of-65-bytes", "%s: %s = %r" % (where, name, text))
+        if not (27 <= raw[0] < 35) or bool((raw[0] - 27) & 4) != comp:
+            _bad("msg:signature-header-byte", "%s: %s header byte %d for compressed=%r" % (where, name, raw[0], comp))
+        if not M.verdict(z, raw, Q_expected=Q):
+            _bad("msg:signature-does-not-recover-signer", "%s: %s = %r does not recover the signer under the reference" % (where, name, text))
+    rfc_label = "sig=rfc6979" if sig == exp else "sig=other-nonce-or-normalised"
     addr = key.address()
     ref_h160 = M.key_hash(Q, comp)
     for name, target in (("key", key), ("public key", key.public_copy()), ("address", addr)):
@@ -191,7 +203,54 @@ def o_sign_verify(case):
     must_fail("msg:verifies-under-other-network-magic", "%s.verify(address, sig made on %s, msg)" % (code2, code),
               lambda: net2.msg.verify(k3.address(), sig, msg))
     return msg_labels(msg) + ["compressed" if comp else "uncompressed", "recid=%d" % recid, "magic-len=%d" % len(magic(code)),
-                              "other-msg=" + case["other_msg"][0]]
+                              "other-msg=" + case["other_msg"][0], rfc_label]
+
+
+def o_verify_history(case):
+    """several verifications on ONE network's msg object, by text and by hash, of signatures of different messages:
+    every verdict depends only on (target, signature, message or hash), never on what was verified before"""
+    code = case["net"]
+    net = NET(code)
+    d, comp = case["d"], bool(case["compressed"])
+    key = net.keys.private(secret_exponent=d, is_compressed=comp)
+    d2 = case["d2"] if case["d2"] != d else d % (N - 1) + 1
+    other_key = net.keys.private(secret_exponent=d2, is_compressed=comp)
+    msgs = []
+    for m in case["msgs"]:
+        t = build_msg(m)
+        if t not in msgs:
+            msgs.append(t)
+    zs = [M.magic_hash(magic(code), t) for t in msgs]
+    sigs = [net.msg.sign(key, t) for t in msgs]
+    targets = {"key": key, "pub": key.public_copy(), "addr": key.address(), "other": other_key, "other-addr": other_key.address()}
+    labels = ["msgs=%d" % len(msgs)]
+    prev = None
+    for step, (si, mi, mode, tname) in enumerate(case["ops"]):
+        si, mi = si % len(msgs), mi % len(msgs)
+        target = targets[tname]
+        if mode == "text":
+            f = lambda: net.msg.verify(target, sigs[si], msgs[mi])
+        else:
+            f = lambda: net.msg.verify(target, sigs[si], msg_hash=zs[mi])
+        got = total(f, "%s verify step %d" % (code, step))
+        want = (si == mi) and tname in ("key", "pub", "addr")
+        if got is not want:
+            _bad("msg:history:verdict-depends-on-earlier-calls" if prev is not None else "msg:history:verdict",
+                 "%s d=%d: step %d of %s: verify(%s, signature of message #%d, %s of message #%d) = %r, expected %r" % (
+                     code, d, step, case["ops"], tname, si, "hash" if mode == "hash" else "text", mi, got, want))
+        if prev is not None and prev[0] == si and prev[2] == "hash" and mode == "hash" and prev[1] != mi:
+            labels.append("same-sig-by-hash-twice-different-hash")
+        labels.append("mode=" + mode)
+        prev = (si, mi, mode)
+    return sorted(set(labels))
+
+
+def s_verify_history():
+    op = st.tuples(st.integers(0, 2), st.integers(0, 2), st.sampled_from(["hash", "hash", "text"]),
+                   st.sampled_from(["key", "key", "addr", "pub", "other", "other-addr"])).map(list)
+    return st.fixed_dictionaries({"net": st.sampled_from(NETCODES), "d": common.scalars(), "d2": common.scalars(),
+                                  "compressed": st.sampled_from([0, 1]), "msgs": st.lists(free_msgs(), min_size=2, max_size=3),
+                                  "ops": st.lists(op, min_size=2, max_size=8)})
 
 
 def free_text():
@@ -453,6 +512,9 @@ SUBCHECKS = [
                   "pair_for_message_hash == (d*G, flag); verify False for a near-miss or unrelated other message, another key, the negated "
                   "key, their addresses, the same key's other-compression address, and under a network with a different magic. "
                   "Non-trivial = non-empty message"),
+    SubCheck("verify_history", o_verify_history, strategy=s_verify_history, budget=(800, 30000),
+             nontrivial=lambda c, l: "same-sig-by-hash-twice-different-hash" in l,
+             rule="2-8 verifications on one network's msg object: signatures of 2-3 messages by one key, checked by message text or by msg_hash= against the key, its public copy, its address, another key and that key's address; every verdict equals (signature's message == presented message and target is the signer), whatever was verified before; non-trivial = the same signature verified by hash twice in a row against different hashes"),
     SubCheck("armour_roundtrip", o_armour, strategy=s_armour, budget=(1200, 50000),
              nontrivial=lambda c, l: "msg-bytes=0" not in l,
              rule="messages of 0-6 lines free of CR/LF joined with LF or CRLF (one style), lines include near-misses of the armour "
